@@ -242,8 +242,8 @@ fn names(t: &mut Tape, obs: &mut Obs) -> R {
     let ops = t.below(4); // 0 = the name itself
     let mut label = String::from("exact");
     for _ in 0..ops {
-        let k = t.below(12);
-        label = ["prefix", "suffix", "append", "prepend", "lower", "upper", "edit", "join", "space", "multibyte-insert", "multibyte-replace", "utf8-text"][k].to_string();
+        let k = t.below(14);
+        label = ["prefix", "suffix", "append", "prepend", "lower", "upper", "edit", "join", "space", "multibyte-insert", "multibyte-replace", "utf8-text", "congruent-char", "whitespace"][k].to_string();
         match k {
             0 => {
                 let c = t.below(cs.len() + 1);
@@ -279,7 +279,26 @@ fn names(t: &mut Tape, obs: &mut Obs) -> R {
                     cs[i] = c;
                 }
             }
-            _ => cs = String::from_utf8_lossy(&t.utf8_text(40)).chars().collect(),
+            11 => cs = String::from_utf8_lossy(&t.utf8_text(40)).chars().collect(),
+            12 => {
+                // a character whose code point is congruent to the original modulo 256 or 65536 (comparison through a narrowing cast)
+                if !cs.is_empty() {
+                    let i = t.below(cs.len());
+                    let off = t.pick(&[0x100u32, 0x200, 0x1f300, 0x10000, 0x20000, 0xff00]);
+                    if let Some(c) = char::from_u32(cs[i] as u32 + off) {
+                        cs[i] = c;
+                    }
+                }
+            }
+            _ => {
+                // white space and control characters around the name (a lookup must not trim or normalise)
+                let w = t.pick(&[' ', '\t', '\n', '\r', '\u{a0}', '\u{2003}', '\u{feff}', '\u{200b}']);
+                if t.bool() {
+                    cs.push(w);
+                } else {
+                    cs.insert(0, w);
+                }
+            }
         }
     }
     let s: String = cs.into_iter().collect();
